@@ -132,6 +132,8 @@ def seg_kernels(kind):
         K(f'{c}__findRoots_x', [kind], lambda s: s._findRoots('x'), 'LS', libm=True),
         K(f'{c}__findRoots_y', [kind], lambda s: s._findRoots('y'), 'LS', libm=True),
     ]
+    if kind == 'seg2':
+        ks += [K(f'{c}_curvatureAtTime', [kind, 't'], lambda s, t: s.curvatureAtTime(t), 'S')]
     if kind != 'seg2':
         ks += [K(f'{c}_derivative', [kind], lambda s: s.derivative(), {'seg3': 'seg2', 'seg4': 'seg3'}[kind]),
                K(f'{c}_curvatureAtTime', [kind, 't'], lambda s, t: s.curvatureAtTime(t), 'S', tol=1e-12, libm=True),
